@@ -25,30 +25,6 @@ TraceInit == /\ tid \in 1..Len(Traces)
              /\ verdict = "run"
              /\ detail = <<>>
 
-MemoOf(st) == st.memo
-\* the fields of one event, in the order they are compared
-Diff(E, ev, before) ==
-  IF ev.k # before.k THEN "k"
-  ELSE IF ev.exc # "" THEN "raised:" \o ev.exc
-  ELSE IF ev.ret # (Len(E.returned) > Len(before.returned)) THEN "returned"
-  ELSE IF ev.scan_count # E.st.scanCount THEN "scan_count"
-  ELSE IF ev.match_count # E.st.matchCount THEN "match_count"
-  ELSE IF ev.stopped # E.st.stopped THEN "stopped"
-  ELSE IF ev.advance # E.st.advance THEN "advance"
-  ELSE IF ev.valid # E.st.valid THEN "valid"
-  ELSE IF E.kind = "match" /\ ev.votes # MemoOf(E.st) THEN "votes"
-  ELSE IF ~VarsEq(ev.vars, NormVars(E.st.vars)) THEN "vars"
-  ELSE IF ev.printed # E.st.printed THEN "printed"
-  ELSE "ok"
-
-\* what the specification expected for the field that differs (for the replay file)
-Expected(E, f) ==
-  CASE f = "vars" -> NormVars(E.st.vars)
-    [] f = "votes" -> MemoOf(E.st)
-    [] f = "printed" -> E.st.printed
-    [] f = "returned" -> <<E.returned>>
-    [] OTHER -> <<E.st.scanCount, E.st.matchCount, E.st.stopped, E.st.advance, E.st.valid>>
-
 \* consume one event
 TraceStep ==
   /\ verdict = "run" /\ i <= Len(Events)
